@@ -39,10 +39,7 @@ Definition obs_eqb (m : option (file cell)) (o : option (list nat * list ovar)) 
 Definition checkF (c : case_t) : bool := obs_eqb (impl_slice_file (to_file c) (c_kws c)) (c_obs c).
 Definition checkS (c : case_t) : bool := obs_eqb (spec_slice_file (to_file c) (c_kws c)) (c_obs c).
 
-(* region 0: everything (the property is proved for the model of the repaired code)
-   region 1: two or more EMPTY zipped lists (still raises; known finding) *)
-Definition region (c : case_t) : nat :=
-  let ll := list_lens (c_kws c) in
-  if Nat.ltb 1 (length ll) && forallb (Nat.eqb 0) ll then 1%nat else 0%nat.
+(* the property is proved for the model of the repaired code on every input: one region *)
+Definition region (c : case_t) : nat := 0%nat.
 
 Definition check (c : case_t) : verdict := (checkF c, checkS c, region c).
